@@ -872,6 +872,8 @@ def _resolve_action_conflicts(
                         and winning_event.action_uid
                         and isinstance(competing_event, ActionEvent)
                         and competing_event.action_uid
+                        # (flows that already share the action have nothing to replace)
+                        and competing_event.action_uid != winning_event.action_uid
                     ):
                         # All heads that are on the exact same action as the winning head
                         # need to replace their action references with the winning heads action reference
